@@ -216,6 +216,18 @@ PROPS["C11"] = {
     "rule": "case = one notifier history or one multi-cycle gather history; distinct_nontrivial counts (stream, latency, re-entrancy, close kind/time bucket, yield level, size bucket) and (cycles, completed, addresses, slow handler) classes",
     "assumptions": ["events are enqueued by one goroutine at a time, as the agent loop does"],
 }
+PROPS["C12"] = {
+    "parts": [part("TestVerifC12", race=True, q=8, t=16, tq=900)],
+    "level": "exploration",
+    "engine": "E5 muxmon",
+    "technique": "model-based runtime monitor: random operation sequences on the real UDPMuxDefault over a fake shared socket, compared after every operation with a reference routing table (per-connection FIFO, address bindings); concurrent histories under the race detector with a schedule-independent oracle",
+    "level_text": "Sequences of 20-80 operations over 2-4 ufrags (incl. the empty one) and 8 sources (IPv4, IPv4-mapped IPv6, IPv6, link-local with zone): GetConn (both families on an unspecified-address mux, wrong address), WriteTo, inbound "
+                  "(non-STUN, STUN with five USERNAME forms, without USERNAME, undecodable), RemoveConnByUfrag, handle Close, mux Close; both the net.PacketConn and the netip.AddrPort I/O flavours of the handle. "
+                  "Concurrent: readers, writers, feeder, removers and closers with seeded pauses at hook H2.",
+    "level_note": "UniversalUDPMuxDefault / MultiUDPMuxDefault wrap the same UDPMuxDefault and are not driven separately. In the sequential mode the close-watcher goroutine is awaited before the next operation.",
+    "rule": "case = one operation sequence; distinct_nontrivial counts (mux flavour, #ufrags, length bucket, #connections) classes and concurrent read-distribution classes",
+    "assumptions": ["'after it is removed' covers RemoveConnByUfrag while handles are still open"],
+}
 PROPS["C05"] = {
     "parts": [part("TestVerifC05", q=8, t=16, tq=900)],
     "level": "exploration",
@@ -238,6 +250,8 @@ ENGINES.append({"name": "E1 simnet", "path": "harness/ice/vfsim.go, vfsession.go
                 "kind_free_text": "two real agents (or agent + scripted authenticated peer) over an in-memory datagram switch; the harness owns the check ticker (hook H1) and every datagram; oracles after every step"})
 ENGINES.append({"name": "E2 loopmon + E3 apihammer", "path": "harness/taskloop/vfloop.go, harness/ice/vfc10.go, tools/linz", "serves_properties": ["C10"],
                 "kind_free_text": "instrumented task-loop histories and public-API hammering under the race detector; offline porcupine check"})
+ENGINES.append({"name": "E5 muxmon", "path": "harness/ice/vfc12.go, vfc13.go", "serves_properties": ["C12", "C13"],
+                "kind_free_text": "UDPMuxDefault / shared conns over a fake shared socket fed by the harness; reference routing table; abort-protocol stress"})
 
 # properties without a check yet (kept current by hand)
 NOT_YET = {}
